@@ -493,6 +493,59 @@ fn th_chaos_unmanaged(args: &Args, rep: &mut Report, prop: &'static str, runs: u
     }
 }
 
+/// Workload small enough for Miri (also used under ThreadSanitizer with a larger --scale).
+fn sanitizer_workload(args: &Args, prop: &'static str) -> i32 {
+    let mut bad = 0;
+    let mut runs = 0;
+    let n = (2.0 * args.scale).max(1.0) as u64;
+    let big = args.scale > 4.0;
+    for i in 0..n {
+        let seed = args.seed.wrapping_mul(31).wrapping_add(i);
+        if matches!(prop, "C05" | "C12") {
+            let out = th::unmanaged::run_uchaos(prop, 3, if big { 60 } else { 7 }, (seed % 3) as usize, prop == "C12" || seed % 4 == 0, seed);
+            runs += 1;
+            for v in &out.violations {
+                println!("VIOLATION-CANDIDATE property={} sig={}/san/uth_chaos/{} replay=- :: {} :: {}", prop, prop, v.oracle, v.oracle, v.msg);
+                bad += 1;
+            }
+            println!("SAN-RUN engine=uth_chaos seed={} points={} events={}", seed, out.points, out.events);
+        } else {
+            let cfg = th::managed::ChaosCfg {
+                threads: 3,
+                ops: if big { 60 } else { 6 },
+                max_size: (seed % 3) as usize,
+                resize: matches!(prop, "C07") || (prop == "C06" && seed % 2 == 0),
+                close: prop == "C06",
+                retain_take: true,
+                p_fail: 25,
+            };
+            let out = th::managed::run_chaos(prop, cfg, seed);
+            runs += 1;
+            for v in &out.violations {
+                println!("VIOLATION-CANDIDATE property={} sig={}/san/th_chaos/{} replay=- :: {} :: {}", prop, prop, v.oracle, v.oracle, v.msg);
+                bad += 1;
+            }
+            println!("SAN-RUN engine=th_chaos seed={} points={} events={}", seed, out.points, out.events);
+            if prop == "C06" {
+                // objects that outlive every pool handle are still usable and droppable
+                let (ok, msg) = th::managed::outlive_scenario();
+                runs += 1;
+                println!("SAN-RUN engine=outlive ok={}", ok);
+                if !ok {
+                    println!("VIOLATION-CANDIDATE property=C06 sig=C06/san/outlive replay=- :: outlive :: {}", msg);
+                    bad += 1;
+                }
+            }
+        }
+    }
+    println!("SAN-SUMMARY property={} runs={} violations={}", prop, runs, bad);
+    if bad > 0 {
+        1
+    } else {
+        0
+    }
+}
+
 fn rule_for(prop: &str) -> &'static str {
     match prop {
         "C01" => "cases = seeded random task-level histories (plus thread-level scenarios); distinct = hash of the full event log; non-trivial = at least one admission happened with the pool one below its limit, after waiting, or with other callers waiting",
@@ -516,6 +569,10 @@ fn main() {
     };
     let mut rep = Report::new(&args, level, rule_for(prop));
     let sc = |q: f64, t: f64| (args.tier.pick(q, t) * args.scale) as u64;
+    if args.only.as_deref() == Some("miri") {
+        // small thread-level workloads for the Miri / TSan layer (one process = one Miri seed)
+        std::process::exit(sanitizer_workload(&args, prop));
+    }
     match prop {
         "C05" | "C12" => {
             if args.engine_enabled("utl") {
